@@ -27,7 +27,13 @@ ASSUMPTIONS = [
     "the call-site obligations (slicing) use the Featurizer contract 'row- and order-preserving', which the featurizer units prove (rows.both_matrices_keep_the_rows_and_their_order)",
     "bounded companion: <= 2 fixed effects x 3 levels, <= 4 (quick) / 5 (thorough) units, all assignments",
 ]
-BOUNDED = [{"name": "design_matrices", "script": "c16_featurizer.py", "timeout": 3000}]
+BOUNDED = [
+    {"name": "design_matrices", "script": "c16_featurizer.py", "timeout": 3000},
+    # differential test of the theory entries the featurizer proof rests on (symbolic result evaluated on concrete frames
+    # vs. the real pandas run): a test of assumptions, not a proof
+    {"name": "theory_conformance_featurizer", "script": "conformance_featurizer.py", "python": "vt", "tiers": ["quick"], "args": ["--n", "4"], "timeout": 1200},
+    {"name": "theory_conformance_featurizer", "script": "conformance_featurizer.py", "python": "vt", "tiers": ["thorough"], "args": ["--n", "40"], "timeout": 3000},
+]
 
 for _u in list(UNITS.get("C03", [])):
     if _u["name"] in ("nonparametric.unit_intervals", "unit_predictions.floor"):
